@@ -268,6 +268,71 @@ func runC12(c *eng.Ctx) {
 			}
 		}
 		r3.Check(ok, run.Key+" executor", run.Decl.Pos(), "NewExecutor(dir(h.Path), h.Path, ..., envs)", "the hook process is not started in the hook's own directory with the hook as executable and the prepared environment")
+		// precedence: os/exec uses the last value of a duplicated key, so the per-execution variables must come after
+		// anything inherited from the operator's own environment, in Run and in NewExecutor
+		g := p.GraphOf(run)
+		isEnviron := func(n *eng.GNode) bool {
+			return len(g.CallsAt(n, func(o types.Object, _ *ast.CallExpr) bool {
+				return o != nil && o.Name() == "Environ" && o.Pkg() != nil && (o.Pkg().Path() == "os" || o.Pkg().Path() == "os/exec")
+			})) > 0
+		}
+		isContract := func(n *eng.GNode) bool {
+			as, isA := n.Node.(*ast.AssignStmt)
+			if !isA || len(as.Rhs) != 1 {
+				return false
+			}
+			ap := builtinCall(info, as.Rhs[0], "append")
+			if ap == nil || len(ap.Args) != 2 {
+				return false
+			}
+			cl, isC := ast.Unparen(ap.Args[1]).(*ast.CallExpr)
+			if !isC || !eng.IsPkgFunc(eng.CalleeOf(info, cl), "fmt", "Sprintf") || len(cl.Args) < 1 {
+				return false
+			}
+			fs, isS := eng.ConstStr(info, cl.Args[0])
+			return isS && strings.HasSuffix(fs, "_PATH=%s")
+		}
+		var contract []*eng.GNode
+		for _, n := range g.Nodes {
+			if isContract(n) {
+				contract = append(contract, n)
+			}
+		}
+		late := false
+		for n := range g.Reach(eng.Query{From: contract}) {
+			if isEnviron(n) {
+				late = true
+			}
+		}
+		r3.Check(!late && len(contract) > 0, run.Key+" env precedence", run.Decl.Pos(), "the operator's own environment is added before the per-execution variables", "the operator's environment is appended after the per-execution *_PATH variables: a variable of the same name in the operator's environment (e.g. METRICS_PATH in the Pod spec) overrides the unique path of this execution")
+		if ne, _ := p.Object("pkg/executor", "NewExecutor").(*types.Func); ne == nil {
+			r3.Unknown("anchor:NewExecutor", token.NoPos, "not found")
+		} else if nf := p.FuncOf(ne); nf != nil {
+			c.Touch(nf)
+			ninfo := nf.Pkg.TypesInfo
+			envsPrm := ne.Type().(*types.Signature).Params().At(3)
+			okTail, nstores := true, 0
+			ast.Inspect(nf.Decl.Body, func(x ast.Node) bool {
+				as, isA := x.(*ast.AssignStmt)
+				if !isA || len(as.Lhs) != 1 || len(as.Rhs) != 1 {
+					return true
+				}
+				sel, isS := ast.Unparen(as.Lhs[0]).(*ast.SelectorExpr)
+				if !isS || sel.Sel.Name != "Env" {
+					return true
+				}
+				if !eng.UsesObj(ninfo, as.Rhs[0], envsPrm, false) {
+					return true
+				}
+				nstores++
+				ap := builtinCall(ninfo, as.Rhs[0], "append")
+				if ap == nil || len(ap.Args) != 2 || !ap.Ellipsis.IsValid() || eng.SelObj(ninfo, ap.Args[1]) != types.Object(envsPrm) || eng.UsesObj(ninfo, ap.Args[0], envsPrm, false) {
+					okTail = false
+				}
+				return true
+			})
+			r3.Check(okTail && nstores > 0, nf.Key+" env precedence", nf.Decl.Pos(), "cmd.Env = append(<inherited>, envs...)", "NewExecutor does not put the caller's variables last in cmd.Env: inherited variables of the same name win over the per-execution ones")
+		}
 	}
 
 	// R4 error flow of Run + RunAndLogLines
